@@ -13,8 +13,8 @@ CHECK = {
             "holds its own documents, and server-side writes armed into the compute->CAS window of a pushed revision; every script is run with a V3 and a V4 "
             "client. isgr-race part (thorough tier): the isgr workload under the race detector.",
     "parts": [
-        {"name": "isgr", "pkg": "rest", "run": "^TestVerif_C06_ISGR$", "timeout_q": 900, "timeout_t": 3300, "env": {"SG_TEST_BUCKET_POOL_SIZE": "16"}},
-        {"name": "blip", "pkg": "rest", "run": "^TestVerif_C06_Blip$", "timeout_q": 600, "timeout_t": 2400, "env": {"SG_TEST_BUCKET_POOL_SIZE": "10"}},
+        {"name": "isgr", "pkg": "rest", "run": "^TestVerif_C06_ISGR$", "timeout_q": 900, "timeout_t": 3300, "env": {"SG_TEST_BUCKET_POOL_SIZE": "20"}},
+        {"name": "blip", "pkg": "rest", "run": "^TestVerif_C06_Blip$", "timeout_q": 600, "timeout_t": 2400, "env": {"SG_TEST_BUCKET_POOL_SIZE": "12"}},
         {"name": "isgr-race", "pkg": "rest", "race": True, "thorough_only": True, "run": "^TestVerif_C06_ISGRRace$", "timeout_q": 900, "timeout_t": 3000,
          "env": {"SG_TEST_BUCKET_POOL_SIZE": "12"}},
     ],
